@@ -35,11 +35,14 @@
     ADD / DELETE / KILL / restore requests in the mailboxes), all shards at once, every allowed
     scheduler outcome: closure, rank decrease, healing within detect_rounds + 4 resp. + 5 healthy rounds
     (C01_mend_round, C01_mend_progress, C01_heal_mend, C01_heal_stage_view_behind, C01_heal_menda),
-    proofs/FleetMendProofs.v, FleetMendAProofs.v.
+    proofs/FleetMendProofs.v, FleetMendAProofs.v; and through the round in which an ADD / DELETE with a
+    current fence is applied ([MendB] states; C01_heal_stage_change_applied,
+    C01_heal_stage_change_settled, C01_heal_mendb: detect_rounds + 6), proofs/FleetMendBProofs.v.
     NOT PROVED (stated below as [C01_progress_full], [C01_heal_full] : Prop, checked on every run by
     the closed-loop correspondence, harness/py/c01.py): the same from EVERY LoopInv state with all
-    hosts up - in particular the round in which an ADD / DELETE with a current fence is applied, and
-    more than one membership change in progress in a shard. *)
+    hosts up - members whose data is gone (the leader then schedules ADD / DELETE itself; every ADD
+    allows the outcome "round dropped", see the note at C01_heal_full), live change requests next to
+    pending CREATE requests or a waiting joiner of the same shard. *)
 From stdpp Require Import gmap.
 From Drummer.Model Require Import DB Sched Fleet FleetRun FleetExample FleetRounds.
 From Drummer.Proofs Require Import DBTimeProofs FleetProofs FleetLiveProofs FleetHealProofs FleetMendProofs FleetMendAProofs FleetMendBProofs.
@@ -297,10 +300,11 @@ Print Assumptions C01_calm_checked.
       view current, joiner not yet created / created, not reported .. C01_mend_round, C01_mend_progress, C01_heal_mend
       surplus member; stray replica running / in the kill list;
       stale ADD / DELETE / KILL / restore leftovers ................. the same three (they are part of Mend)
-    Stages that remain OPEN (part of [C01_heal_full]): an ADD / DELETE request with a CURRENT fence in a mailbox - the
-    round in which the change is applied (the membership history changes in the middle of the round and the leader
-    schedules from a view that is behind; this is where [C01_no_error_round] and its [spare] premise are needed) -,
-    more than one membership change in progress in one shard, members without data. *)
+    The stage "ADD / DELETE request with a CURRENT fence pending" - the round in which the change is applied: the
+    membership history changes in the middle of the round and the leader schedules from a view that is behind - is
+    covered by [MendB] below.  Stages that remain OPEN (part of [C01_heal_full]): members without data (a really lost
+    replica: the leader schedules ADD / DELETE itself - this is where [C01_no_error_round] and its [spare] premise
+    are needed), a live change request next to a pending CREATE request or a waiting joiner of its shard. *)
 
 Theorem C01_calm_mend : forall st, Calm st -> Mend st.
 Proof. exact calm_mend. Qed.
@@ -387,7 +391,8 @@ Print Assumptions C01_menda_checked.
         requests that remain are inert copies in Outgoing), the scheduler having answered with a batch of restore,
         join-CREATE and KILL requests only;
       - [C01_heal_stage_change_settled]: the next healthy round ends in Mend;
-      - [C01_heal_mendb]: after detect_rounds + 6 healthy rounds the fleet is healed, and stays healed.
+      - [C01_heal_mendb]: after detect_rounds + 6 healthy rounds the fleet is healed, and stays healed;
+      - [C01_mendb_progress]: the pair (stage of the change, rank of Mend) decreases lexicographically per round.
     The execution-level generalisation ("the history changes only by appending one entry for the shard of the
     executed request; the host-side class holds relative to the NEW history; the pending requests keep a
     classification relative to it") is FleetMendBProofs.bexec_one / mp_exec_req.
@@ -411,6 +416,18 @@ Theorem C01_heal_stage_change_settled : forall (P : params) (st st' : fstate) (p
   exists b, o = OBatch b /\ add_ids b = [] /\ Mend st'.
 Proof. exact mendb_inert_round. Qed.
 Print Assumptions C01_heal_stage_change_settled.
+
+(* the rank over the new stage: the pair (stage of the change, rank of Mend) decreases lexicographically in every healthy
+   round while the fleet is not healed - stage 2: a change request with a current fence is pending (scheduled /
+   delivered); 1: it has been applied or dropped, Drummer's view is behind or stale copies are left in Outgoing;
+   0: settled, the state is in Mend and [mend_rank] takes over *)
+Theorem C01_mendb_progress : forall (P : params) (st st' : fstate) (plogs : N -> bool) (nticks : nat) (o : outcome),
+  MendB st -> (forall a, plogs a = true) -> (0 < nticks)%nat -> 0 < p_step P -> N.of_nat nticks * p_step P <= p_ttl P ->
+  healed P st = false -> healthy_round P plogs nticks o st = Some st' ->
+  (mendb_stage st' < mendb_stage st)%nat \/
+  (mendb_stage st = 0%nat /\ mendb_stage st' = 0%nat /\ (mend_rank P st' < mend_rank P st)%nat).
+Proof. exact mendb_progress. Qed.
+Print Assumptions C01_mendb_progress.
 
 Theorem C01_heal_mendb : forall (P : params) (os : list outcome) (st st' : fstate) (plogs : N -> bool) (nticks : nat),
   MendB st -> (forall a, plogs a = true) -> N.of_nat nticks * p_step P <= p_ttl P -> (0 < nticks)%nat -> 0 < p_step P ->
@@ -480,6 +497,13 @@ Definition C01_progress_full : Prop :=
 (* B consecutive healthy rounds (any allowed scheduler outcomes [os], persisted logs reported in every
    round, [nticks] ticks per round with nticks * step < ttl) from ANY state of the invariant in which every
    host is up *)
+(* NOTE (found while proving the stages): in every round in which the scheduler's decision for some shard is ADD,
+   Sched.allowed also admits the outcome OCrash (the random source may return replica id 0, validateNodeHostRequest
+   panics, the round is dropped - Sched.may_invalid, entry_may_invalid AAdd), and Fleet.fstep answers it with
+   "FOk st": a healthy round whose scheduling step changes nothing, as often as the adversary likes.  A proof of the
+   statement below "for EVERY allowed outcome" must therefore show that under its premises (members_have_data) an ADD
+   decision cannot persist, or assume that the random source never returns 0.  The proved stage theorems do not meet
+   the problem: no ADD can be scheduled from Calm / Mend / MendA / MendB states. *)
 Definition C01_heal_full : Prop :=
   exists B : params -> nat -> nat,
     forall (P : params) (nticks : nat) (os : list outcome) (st st' : fstate),
